@@ -58,7 +58,8 @@ class RecSubscriber(Subscriber):
             self.mark_cancel()
             return
         if self.request_on_subscribe:
-            subscription.request(self.request_on_subscribe)
+            for n in (self.request_on_subscribe if isinstance(self.request_on_subscribe, (tuple, list)) else (self.request_on_subscribe,)):
+                subscription.request(n)
 
     def on_next(self, value, is_complete=False):
         self._rec(('N', pl(value), bool(is_complete)))
